@@ -103,10 +103,11 @@ Lemma legal_msg_path lay m o m' f s k i :
 Proof.
   intros L A Hs Ht Hex.
   assert (LP : live_path (PMsg f s k i)) by (exists f, s, k, i; split; [reflexivity|exact Hs]).
-  destruct (legal_live _ _ _ _ L A)
-    as [F|[[src [dst [c [-> [[g [t [k0 [j [-> Ht0]]]]] [Hk Hl]]]]]]
-         |[[src [dst [c [-> [[g [t [k0 [j [-> Ht0]]]]] [[g' [t' [k1 [j' [-> Ht1]]]]] [Hkk [Hc Hl]]]]]]]]]
-          |[p [-> [[g [t [k0 [j [-> Ht0]]]]] Hl]]]]]].
+  destruct (legal_live _ _ _ _ L A) as [F|[HL|[HR|HU]]];
+    [|destruct HL as (src & dst & c & -> & (g & t & k0 & j & -> & Ht0) & Hk & Hl)
+     |destruct HR as (src & dst & c & -> & (g & t & k0 & j & -> & Ht0)
+                      & (g' & t' & k1 & j' & -> & Ht1) & Hkk & Hc & Hl)
+     |destruct HU as (p & -> & (g & t & k0 & j & -> & Ht0) & Hl)].
   - exact (F _ LP).
   - rewrite Hl. destruct (path_eqb (PMsg g t k0 j) (PMsg f s k i)) eqn:E; [|reflexivity].
     apply path_eqb_eq in E. inversion E; subst. exfalso. apply Hex. apply Hk. exact Hs.
@@ -130,7 +131,7 @@ Proof.
   intros L A [t [Hl Hp]].
   destruct (legal_uidl_path _ _ _ _ f L A) as [E|[n [t' [u' [_ [_ [Hl' [Hp' [_ He]]]]]]]]].
   - exists u. split; [exists t; rewrite E; split; assumption|].
-    repeat split; try reflexivity; try (intros; assumption). apply N.le_refl.
+    repeat split; try reflexivity; try (intros; assumption); try apply N.le_refl.
   - specialize (He u (ex_intro _ t (conj Hl Hp))). destruct He as [Hv [Hn [Ho Hk]]].
     exists u'. split; [exists t'; split; assumption|].
     repeat split; assumption.
@@ -166,14 +167,16 @@ Proof.
   - intros f n Hn.
     destruct (legal_uidl_path _ _ _ _ f L A) as [E|[n0 [t [u' [_ [_ [Hl [Hp [Hu _]]]]]]]]].
     + rewrite E in Hn. exact (I1 f n Hn).
-    + rewrite Hl in Hn. injection Hn as <-. exists t, u'. repeat split; assumption.
+    + rewrite Hl in Hn. injection Hn as <-. exists t, u'.
+      split; [reflexivity|]. split; [exact Hp|exact Hu].
   - intros f s i n f' s' i' n' k Hs Hs' H1 H2.
     assert (LP1 : live_path (PMsg f s k i)) by (exists f, s, k, i; split; [reflexivity|exact Hs]).
     assert (LP2 : live_path (PMsg f' s' k i')) by (exists f', s', k, i'; split; [reflexivity|exact Hs']).
-    destruct (legal_live _ _ _ _ L A)
-      as [F|[[src [dst [c [-> [[g [t [k0 [j [-> Ht0]]]]] [Hk Hl]]]]]]
-           |[[src [dst [c [-> [[g [t [k0 [j [-> Ht0]]]]] [[g' [t' [k1 [j' [-> Ht1]]]]] [Hkk [Hc Hl]]]]]]]]]
-            |[p [-> [[g [t [k0 [j [-> Ht0]]]]] Hl]]]]]].
+    destruct (legal_live _ _ _ _ L A) as [F|[HL|[HR|HU]]];
+    [|destruct HL as (src & dst & c & -> & (g & t & k0 & j & -> & Ht0) & Hk & Hl)
+     |destruct HR as (src & dst & c & -> & (g & t & k0 & j & -> & Ht0)
+                      & (g' & t' & k1 & j' & -> & Ht1) & Hkk & Hc & Hl)
+     |destruct HU as (p & -> & (g & t & k0 & j & -> & Ht0) & Hl)].
     + rewrite (F _ LP1) in H1. rewrite (F _ LP2) in H2. exact (I2 _ _ _ _ _ _ _ _ _ Hs Hs' H1 H2).
     + (* link: the new file is the only one with its key *)
       cbn [key_of] in Hk. rewrite Hl in H1, H2.
@@ -215,10 +218,11 @@ Lemma legal_step_content lay m o m' f k i c f' i' c' :
 Proof.
   intros [I1 I2] L A [s [Hs H1]] [s' [Hs' H2]].
   assert (LP2 : live_path (PMsg f' s' k i')) by (exists f', s', k, i'; split; [reflexivity|exact Hs']).
-  destruct (legal_live _ _ _ _ L A)
-    as [F|[[src [dst [c0 [-> [[g [t [k0 [j [-> Ht0]]]]] [Hk Hl]]]]]]
-         |[[src [dst [c0 [-> [[g [t [k0 [j [-> Ht0]]]]] [[g' [t' [k1 [j' [-> Ht1]]]]] [Hkk [Hc Hl]]]]]]]]]
-          |[p [-> [[g [t [k0 [j [-> Ht0]]]]] Hl]]]]]].
+  destruct (legal_live _ _ _ _ L A) as [F|[HL|[HR|HU]]];
+    [|destruct HL as (src & dst & c0 & -> & (g & t & k0 & j & -> & Ht0) & Hk & Hl)
+     |destruct HR as (src & dst & c0 & -> & (g & t & k0 & j & -> & Ht0)
+                      & (g' & t' & k1 & j' & -> & Ht1) & Hkk & Hc & Hl)
+     |destruct HU as (p & -> & (g & t & k0 & j & -> & Ht0) & Hl)].
   - rewrite (F _ LP2) in H2.
     destruct (I2 _ _ _ _ _ _ _ _ _ Hs Hs' H1 H2) as [-> [-> ->]]. congruence.
   - cbn [key_of] in Hk. rewrite Hl in H2.
@@ -233,4 +237,90 @@ Proof.
       destruct (I2 _ _ _ _ _ _ _ _ _ Hs Hs' H1 H2) as [-> [-> ->]]. congruence.
   - rewrite Hl in H2. destruct (path_eqb (PMsg g t k0 j) (PMsg f' s' k i')); [discriminate|].
     destruct (I2 _ _ _ _ _ _ _ _ _ Hs Hs' H1 H2) as [-> [-> ->]]. congruence.
+Qed.
+
+(* ------------------------------------------------ runs and their prefixes *)
+Lemma legal_run_apply lay m l m' : legal_run lay m l m' -> apply_ops lay m l = (m', true).
+Proof. induction 1 as [|m o m1 l m2 L A R IH]; cbn [apply_ops]; [reflexivity|].
+  rewrite A. exact IH. Qed.
+
+Lemma legal_run_prefix lay m l m' k :
+  legal_run lay m l m' -> exists mk, legal_run lay m (crash k l) mk.
+Proof.
+  intro R. revert k. induction R as [|m o m1 l m2 L A R IH]; intro k.
+  - exists m. unfold crash. rewrite firstn_nil. constructor.
+  - destruct k as [|k].
+    + exists m. constructor.
+    + destruct (IH k) as [mk Rk]. exists mk. unfold crash in *. cbn [firstn].
+      econstructor; eassumption.
+Qed.
+
+Lemma legal_run_app lay m l1 m1 l2 m2 :
+  legal_run lay m l1 m1 -> legal_run lay m1 l2 m2 -> legal_run lay m (l1 ++ l2) m2.
+Proof. induction 1; cbn [app]; intro R2; [exact R2|]. econstructor; eauto. Qed.
+
+Theorem run_inv lay m l m' : Inv m -> legal_run lay m l m' -> Inv m'.
+Proof. intros I R. induction R as [|m o m1 l m2 L A R IH]; [exact I|].
+  apply IH. exact (legal_step_inv _ _ _ _ I L A). Qed.
+
+Theorem run_serves lay m l m' f v uid k fl c :
+  legal_run lay m l m' -> ~ touched l k ->
+  serves m f v uid k fl c -> serves m' f v uid k fl c.
+Proof.
+  intros R. induction R as [|m o m1 l m2 L A R IH]; intros Ht S; [exact S|].
+  apply IH.
+  - intro T. apply Ht. apply Exists_cons_tl. exact T.
+  - apply (legal_step_serves _ _ _ _ _ _ _ _ _ _ L A); [|exact S].
+    intro T. apply Ht. apply Exists_cons_hd. exact T.
+Qed.
+
+Lemma uid_stable_refl m : uid_stable m m.
+Proof. intros f u Hu. exists u. split; [exact Hu|]. split; [reflexivity|].
+  split; [apply N.le_refl|]. intros; assumption. Qed.
+
+Lemma uid_stable_trans m1 m2 m3 : uid_stable m1 m2 -> uid_stable m2 m3 -> uid_stable m1 m3.
+Proof.
+  intros H12 H23 f u1 Hu1.
+  destruct (H12 f u1 Hu1) as [u2 [Hu2 [Hv2 [Hn2 Ho2]]]].
+  destruct (H23 f u2 Hu2) as [u3 [Hu3 [Hv3 [Hn3 Ho3]]]].
+  exists u3. split; [exact Hu3|]. split; [congruence|]. split; [lia|].
+  intros uid k Hr Hlt. apply Ho2; [|exact Hlt]. apply Ho3; [exact Hr|lia].
+Qed.
+
+Theorem run_uid_stable lay m l m' : legal_run lay m l m' -> uid_stable m m'.
+Proof.
+  induction 1 as [|m o m1 l m2 L A R IH]; [apply uid_stable_refl|].
+  apply (uid_stable_trans _ m1); [|exact IH].
+  intros f u Hu. destruct (legal_step_uidl _ _ _ _ _ _ L A Hu) as [u' [Hu' [Hv [Hn [Ho _]]]]].
+  exists u'. repeat split; assumption.
+Qed.
+
+(* uid lists read back in any state of a run: a uid names one key for ever *)
+Theorem uid_names_one_key lay m l m' f u u' uid k k' :
+  Inv m -> legal_run lay m l m' ->
+  uidl_at m f u -> uidl_at m' f u' ->
+  recorded u uid k -> recorded u' uid k' -> k = k'.
+Proof.
+  intros I R Hu Hu' Hr Hr'.
+  destruct (run_uid_stable _ _ _ _ R f u Hu) as [u2 [Hu2 [_ [_ Ho]]]].
+  assert (u2 = u').
+  { destruct Hu2 as [t [H1 H2]]. destruct Hu' as [t' [H1' H2']]. congruence. }
+  subst u2.
+  destruct I as [I1 _]. destruct Hu as [t [Hl Hp]].
+  destruct (I1 f _ Hl) as [t0 [u0 [Et [Hp0 [Hnd Hlt]]]]].
+  injection Et as <-. rewrite Hp in Hp0. injection Hp0 as <-.
+  assert (Hlt' : uid < u_next u).
+  { destruct Hr as [r [Hin [<- _]]]. exact (Hlt r Hin). }
+  specialize (Ho uid k' Hr' Hlt').
+  destruct Hr as [r [Hin [Hu1 Hk1]]]. destruct Ho as [r' [Hin' [Hu1' Hk1']]].
+  assert (r = r').
+  { clear - Hnd Hin Hin' Hu1 Hu1'. revert Hnd Hin Hin'. generalize (u_recs u).
+    induction l as [|x l IH]; cbn [map In]; intros Hnd Hin Hin'; [contradiction|].
+    inversion Hnd as [|? ? Hx Hl]; subst.
+    destruct Hin as [->|Hin], Hin' as [->|Hin'].
+    - reflexivity.
+    - exfalso. apply Hx. apply in_map_iff. exists r'. split; [congruence|exact Hin'].
+    - exfalso. apply Hx. apply in_map_iff. exists r. split; [congruence|exact Hin].
+    - exact (IH Hl Hin Hin'). }
+  subst r'. congruence.
 Qed.
